@@ -1046,6 +1046,43 @@ func TestFmtBoundary(t *testing.T) {
 			}
 		}
 	}
+	// dependency and output lists with entries that name the project directory itself or nothing
+	// (".", "./", ""): every list of up to three entries over them and a file name, and a few longer ones
+	elems := []string{".", "./", "", "a.go"}
+	var lists [][]string
+	var grow func(prefix []string, left int)
+	grow = func(prefix []string, left int) {
+		if len(prefix) > 0 {
+			lists = append(lists, append([]string(nil), prefix...))
+		}
+		if left == 0 {
+			return
+		}
+		for _, e := range elems {
+			grow(append(prefix, e), left-1)
+		}
+	}
+	grow(nil, 3)
+	lists = append(lists, []string{".", "a.go", ".", "b.go"}, []string{"a.go", ".", ".", "b.go"}, []string{".", ".", "a.go", "."}, []string{"", "a.go", "./", "b.go", "."})
+	for _, l := range lists {
+		var q []string
+		for _, e := range l {
+			q = append(q, "\""+e+"\"")
+		}
+		for _, src := range []string{
+			"task t(" + strings.Join(q, ", ") + ") {\n    echo hi\n}\n",
+			"task t(" + strings.Join(q, ",") + ") -> (" + strings.Join(q, ", ") + ") {\n    echo hi\n}\n",
+		} {
+			n++
+			c := FmtCase{Src: src}
+			s.Eval()
+			s.Class("fmt_lists_with_entries_naming_the_project_itself")
+			if f := execFmtBinary(id(), s, b, c); f != nil && !seen[f.Sig] {
+				seen[f.Sig] = true
+				s.Violation("fmtbin", f.Sig, f.Msg, f.Size, c)
+			}
+		}
+	}
 	// the formatted text is longer than the file and the file may not grow (a full disk, a quota)
 	for _, src := range []string{"X:=\"a\"\ntask t(){echo hi}\n", "#c\nA:=\"1\"\nB:=join(\"a\",\"b\")\n", "task a(\"x\",\"y\")->\"z\"{\necho one\necho two\n}\n", "# doc\ntask t() {\n\techo hi\n}\n"} {
 		n++
